@@ -115,9 +115,13 @@ func c45Flow(o c45Op) Flow[any, any] {
 	case "parmap":
 		fn := func(v any) any {
 			x := v.(int64)
-			// perturb completion order a little
-			for i := int64(0); i < verifMod(x, 3); i++ {
-				runtime.Gosched()
+			// perturb completion order a little (no Gosched: with busy dispatcher workers it costs ms)
+			spin := 0
+			for i := int64(0); i < 200*verifMod(x, 4); i++ {
+				spin += int(i)
+			}
+			if spin < 0 {
+				runtime.KeepAlive(spin)
 			}
 			return o.A*x + o.B
 		}
@@ -250,22 +254,26 @@ func c45RunCase(sys actor.ActorSystem, c c45Case, timeout time.Duration) c45Resu
 
 // TestVerifC45Pipelines runs the generated pipelines of checks/C45.py.
 func TestVerifC45Pipelines(t *testing.T) {
-	cases := verifReadJSONL[c45Case](t, "c45_in.jsonl")
-	sys := verifSystem(t)
-	defer sys.Stop(context.Background())
-	w := newVerifWriter(t, "c45_out.jsonl")
+	cases := verifReadJSONL[c45Case](t, verifEnvStr("C45_IN", "c45_in.jsonl"))
+	w := newVerifWriter(t, verifEnvStr("C45_OUT", "c45_out.jsonl"))
 	defer w.close()
+	timeout := time.Duration(verifEnvInt("VERIF_CASE_TIMEOUT_MS", 10000)) * time.Millisecond
+	// A stage actor that stops with messages left in its bounded mailbox keeps a dispatcher worker
+	// spinning (actor runtime, not the stream property), so every pipeline gets a fresh
+	// ActorSystem that is stopped as soon as the stream has terminated.
 	par := verifEnvInt("VERIF_PAR", 4)
 	results := make([]c45Result, len(cases))
 	var wg sync.WaitGroup
-	sem := make(chan struct{}, par)
+	slots := make(chan struct{}, par)
 	for i := range cases {
 		wg.Add(1)
-		sem <- struct{}{}
+		slots <- struct{}{}
 		go func(i int) {
 			defer wg.Done()
-			defer func() { <-sem }()
-			results[i] = c45RunCase(sys, cases[i], 8*time.Second)
+			defer func() { <-slots }()
+			sys := verifSystem(t)
+			results[i] = c45RunCase(sys, cases[i], timeout)
+			_ = sys.Stop(context.Background())
 		}(i)
 	}
 	wg.Wait()
